@@ -118,6 +118,70 @@ fn mixed_safe(ctx: &Ctx, q: &str) -> bool {
     }
 }
 
+/// a provider object that lives for the whole run
+static KEPT: PublicSuffixList = PublicSuffixList::new();
+
+/// One provider object used by several threads at once (a client requires `Sync` of its provider and is
+/// meant to be shared): every answer equals the one a fresh object gives to the same name in one thread.
+fn shared_object_lookups(rep: &mut Report, psl: &RefPsl, seed: u64, thorough: bool) {
+    static SHARED: PublicSuffixList = PublicSuffixList::new();
+    // names under many different top-level labels, answers taken from fresh objects (each of these
+    // names is also compared with the reference in the main loop)
+    let mut names: Vec<String> = Vec::new();
+    for r in psl.rules.iter() {
+        if r.line % 3 == 0 || r.kind != RuleKind::Normal {
+            names.push(format!("b.a.{}", r.ascii));
+            names.push(format!("www.{}", r.ascii));
+        }
+    }
+    let expect: Vec<(String, Option<String>, bool)> = names.iter().map(|q| (DEFAULT_PROVIDER.public_suffix(q).to_string(), DEFAULT_PROVIDER.effective_tld_plus_one(q).ok().map(|s| s.to_string()), DEFAULT_PROVIDER.is_effective_tld(q))).collect();
+    let threads = if thorough { 16 } else { 8 };
+    let per_thread: usize = if thorough { 1_500_000 } else { 120_000 };
+    let names = std::sync::Arc::new(names);
+    let expect = std::sync::Arc::new(expect);
+    let stop = std::sync::Arc::new(std::sync::atomic::AtomicBool::new(false));
+    let mut handles = Vec::new();
+    for t in 0..threads {
+        let (names, expect, stop) = (names.clone(), expect.clone(), stop.clone());
+        handles.push(std::thread::spawn(move || {
+            let mut rng = Rng::derive(seed, "c10threads", t as u64);
+            let mut done = 0u64;
+            let mut bad: Option<(String, String, String)> = None;
+            for _ in 0..per_thread {
+                if stop.load(std::sync::atomic::Ordering::Relaxed) {
+                    break;
+                }
+                let k = rng.below(names.len());
+                let q = &names[k];
+                let got = (SHARED.public_suffix(q).to_string(), SHARED.effective_tld_plus_one(q).ok().map(|s| s.to_string()), SHARED.is_effective_tld(q));
+                done += 1;
+                if got != expect[k] {
+                    bad = Some((q.clone(), format!("{got:?}"), format!("{:?}", expect[k])));
+                    stop.store(true, std::sync::atomic::Ordering::Relaxed);
+                    break;
+                }
+            }
+            (done, bad)
+        }));
+    }
+    let mut total = 0u64;
+    for h in handles {
+        match h.join() {
+            Ok((done, bad)) => {
+                total += done;
+                if let Some((q, got, want)) = bad {
+                    rep.violate("one provider object used by several threads gives an answer a fresh object does not give", format!("{q}: shared object {got}, fresh object {want}"), json!({"kind": "shared-object-threads", "query": q, "threads": threads}));
+                }
+            }
+            Err(_) => rep.violate("lookup panicked on a provider object shared between threads", String::new(), json!({"kind": "shared-object-threads", "threads": threads})),
+        }
+    }
+    rep.eval();
+    rep.count_n("lookups_on_one_object_shared_by_threads", total);
+    rep.obs("shared_object_threads", json!(threads));
+    rep.obs("shared_object_distinct_names", json!(names.len()));
+}
+
 /// Check one query. `canonical`: compare with the reference; otherwise structural clauses only.
 fn check(ctx: &mut Ctx, q: &str, canonical: bool, origin: &str) {
     ctx.rep.eval();
@@ -135,6 +199,16 @@ fn check(ctx: &mut Ctx, q: &str, canonical: bool, origin: &str) {
             return;
         }
     };
+    // one provider object kept for the whole run (as a client keeps the one it is given) answers as a
+    // fresh one does, whatever was asked of it before
+    match catch(|| (KEPT.public_suffix(q), KEPT.effective_tld_plus_one(q).ok(), KEPT.is_effective_tld(q))) {
+        Ok(k) => {
+            if k != (ps, e1.as_ref().ok().copied(), is) {
+                ctx.rep.violate("a provider object used before answers differently from a fresh one", format!("kept object: {k:?}; fresh object: {:?}", (ps, e1.as_ref().ok(), is)), case.clone());
+            }
+        }
+        Err((sig, detail)) => ctx.rep.violate(&format!("lookup on a provider object used before {sig}"), detail, case.clone()),
+    }
     let empty_label = RefPsl::has_empty_label(q);
     // ---- structural clauses, any string
     if !is_label_suffix(q, ps) {
@@ -215,10 +289,19 @@ fn rule_queries(r: &crate::oracle::psl::Rule) -> Vec<(String, &'static str)> {
             v.push((base.clone(), "wildcard-parent"));
             v.push((format!("zq9.{base}"), "wildcard-instance"));
             v.push((format!("a.{base}"), "wildcard-instance"));
+            // labels up to and beyond the largest legal size (63 octets) in the wildcard position
+            for n in [62usize, 63, 64, 200] {
+                v.push((format!("{}.{base}", "w".repeat(n)), "wildcard-instance-long-label"));
+            }
         }
         RuleKind::Exception => {
             v.push((base.clone(), "exception"));
         }
+    }
+    if r.line % 4 == 0 {
+        // long labels directly left of the rule
+        v.push((format!("{}.{base}", "l".repeat(63)), "long-label-left-of-rule"));
+        v.push((format!("{}.{base}", "l".repeat(64)), "long-label-left-of-rule"));
     }
     let stems: Vec<String> = v.iter().map(|x| x.0.clone()).collect();
     for s in stems {
@@ -279,7 +362,7 @@ pub fn run(args: &Args) -> Report {
         "C10",
         &args.tier,
         args.seed,
-        "queries derived from every rule of public_suffix_list.dat (as is, +1/+2/+3 labels, leading label removed/replaced, wildcard instantiated, exception +/- a label) plus arbitrary strings; distinct by query string; non-trivial when the reference says an explicit rule (normal, wildcard or exception) decides it, or the name has an empty label",
+        "queries derived from every rule of public_suffix_list.dat (as is, +1/+2/+3 labels, leading label removed/replaced, wildcard instantiated, exception +/- a label) plus labels of 62-200 octets in wildcard positions and left of rules, plus arbitrary strings, every query also put to one provider object kept for the whole run, plus lookups on one provider object from 8-16 threads at once; distinct by query string; non-trivial when the reference says an explicit rule (normal, wildcard or exception) decides it, or the name has an empty label",
     );
     rep.assumptions.push("idna crate converts IDN rules to the punycode form the table is keyed in".into());
     rep.assumptions.push("reference comparison for canonical (lower-case ASCII/punycode) names, as the crate documents, and for lower-case names with non-ASCII labels none of whose label-aligned suffixes is the Unicode presentation of an IDN rule (for these the list algorithm has one answer whichever presentation of the rules is used); other strings get the structural clauses".into());
@@ -380,6 +463,9 @@ pub fn run(args: &Args) -> Report {
     }
     let n_arbitrary = args.size(20_000, 300_000);
     arbitrary(&mut ctx, &mut rng, n_arbitrary, args.thorough());
+    if !cfg!(miri) {
+        shared_object_lookups(&mut rep, &psl, args.seed, args.thorough());
+    }
     rep.exhaustive = true;
     rep.obs("exhaustive_over", json!("all rules of the shipped list (arbitrary strings are sampled)"));
     if rep.get("class:normal") == 0 || rep.get("class:wildcard") == 0 || rep.get("class:exception") == 0 {
